@@ -1243,9 +1243,50 @@ Proof.
       rewrite (IH _ _ Hw H), Hl, <- app_assoc. reflexivity.
 Qed.
 
+(* the constructors: Variables(iterable), Variables(range(n)) *)
+Lemma init_vars_wf ls : wf (init_vars ls).
+Proof.
+  unfold init_vars. pose proof (extend_wf ls empty true wf_empty) as H.
+  destruct (extend empty ls true) as [v'|]; [assumption|apply wf_empty].
+Qed.
+
+Lemma ctor_range_wf z : wf (ctor_range z).
+Proof. exact (proj1 (relabel_as_integers_spec (ctor_range z))). Qed.
+
+Lemma ctor_range_list z :
+  to_list (ctor_range z) = map (fun i => LI (Z.of_nat i)) (seq 0 (Z.to_nat z)).
+Proof. exact (proj2 (relabel_as_integers_spec (ctor_range z))). Qed.
+
+Lemma extend_permissive_new ls : forall v,
+  wf v -> NoDup ls -> (forall l, In l ls -> ~ In l (to_list v)) ->
+  exists v', extend v ls true = Ok v' /\ to_list v' = to_list v ++ ls /\ wf v'.
+Proof.
+  induction ls as [|l r IH]; intros v Hwf Hnd Hnew; cbn [extend].
+  - exists v. rewrite app_nil_r. auto.
+  - assert (Hc : count v l = false).
+    { destruct (count v l) eqn:E; [|reflexivity]. apply (count_spec v l Hwf) in E.
+      exfalso. apply (Hnew l); [left; reflexivity|assumption]. }
+    destruct (append_new v l true Hwf Hc) as [E [Hl Hw]]. rewrite E.
+    inversion Hnd as [|x xs Hx Hnd']; subst.
+    destruct (IH (store v l) Hw Hnd') as [v' [E' [Hl' Hw']]].
+    + intros l' Hin Hin'. rewrite Hl in Hin'. apply in_app_or in Hin'. destruct Hin' as [Hin'|Hin'].
+      * apply (Hnew l'); [right; assumption|assumption].
+      * destruct Hin' as [->|[]]. contradiction.
+    + exists v'. rewrite E', Hl', Hl, <- app_assoc. auto.
+Qed.
+
+(* Variables(ls) for a duplicate-free ls is that list *)
+Lemma init_vars_list ls : NoDup ls -> to_list (init_vars ls) = ls /\ wf (init_vars ls).
+Proof.
+  intro Hnd. unfold init_vars.
+  destruct (extend_permissive_new ls empty wf_empty Hnd) as [v' [E [Hl Hw]]].
+  - intros l _ H. exact H.
+  - rewrite E. split; assumption.
+Qed.
+
 Lemma step_wf v o : wf v -> wf (fst (fst (step v o))).
 Proof.
-  intro Hwf. destruct o as [l p|ls p| |m| |l|]; cbn [step].
+  intro Hwf. destruct o as [l p|ls p| |m| |l| | |ls|a b z]; cbn [step].
   - pose proof (append_wf v l p Hwf) as H.
     destruct (append v l p) as [[v' x]|]; cbn [fst]; assumption.
   - pose proof (extend_wf ls v p Hwf) as H.
@@ -1260,6 +1301,9 @@ Proof.
   - destruct (remove v l) as [v'|] eqn:E; cbn [fst]; [|assumption].
     now destruct (remove_ok _ _ _ Hwf E).
   - cbn [fst]. apply wf_empty.
+  - cbn [fst]. assumption.
+  - cbn [fst]. apply init_vars_wf.
+  - cbn [fst]. unfold ctor_of_range. destruct (gen_ctor_fast a b z); [apply ctor_range_wf|apply init_vars_wf].
 Qed.
 
 Definition run_ops (v : vars) (os : list op) : vars :=
